@@ -134,7 +134,10 @@ func strFormat(L *LState) int {
 	for i := 2; i <= top; i++ {
 		args[i-2] = L.Get(i)
 	}
-	npat := strings.Count(str, "%") - strings.Count(str, "%%")
+	npat := strings.Count(str, "%") - 2*strings.Count(str, "%%")
+	if npat > len(args) {
+		L.ArgError(len(args)+2, "no value")
+	}
 	L.Push(LString(fmt.Sprintf(str, args[:intMin(npat, len(args))]...)))
 	return 1
 }
